@@ -286,7 +286,22 @@ class Sim:
             i = edit["atom"] % len(self.atoms)
             if i not in (p.get("fixed") or []):
                 self.atoms.positions[i] += np.array(edit["shift"])
-        for step in mc.irun(p["steps"]):
+        def steps_iter():
+            mid = p.get("mid_run_edit")
+            if not mid:
+                yield from mc.irun(p["steps"])
+                return
+            # the same driver is run twice; between the two runs the user moves an atom (and rescales the box): validate_simulation must pick that up
+            s1 = max(1, min(p["steps"] - 1, mid["after"]))
+            yield from mc.irun(s1)
+            if "cell" in mid and hasattr(mc.context, "last_cell"):
+                self.atoms.set_cell(self.atoms.cell.array * mid["cell"], scale_atoms=True)
+            i = mid["atom"] % max(1, len(self.atoms))
+            if len(self.atoms) and i not in (p.get("fixed") or []):
+                self.atoms.positions[i] += np.array(mid["shift"])
+            self.user_edits = getattr(self, "user_edits", 0) + 1
+            yield from mc.irun(p["steps"] - s1)
+        for step in steps_iter():
             for name in step:
                 # the generator yields the name BEFORE the trial runs: finish bookkeeping of the previous one
                 if cur is not None:
